@@ -24,7 +24,8 @@ def closures(r):
 
 
 def tuples(r):
-    return sorted((b["builder"], b["app"]) for b in r.get("dump", []))
+    # one tuple per (builder, definition of an app): an app name may be defined in several contexts
+    return sorted((b["builder"], b["app"], b.get("app_context") or "") for b in r.get("dump", []))
 
 
 def variants(p, rng, r0):
